@@ -270,38 +270,77 @@ def unconditional(a, nid, loop):
 
 
 def r02c(ctx):
+    """permutation constructors.  Accepted idioms (enumerated from the code and from the standard
+    library forms a maintainer would use): identity fill by push_back(i) / pi[i] = i / std::iota(.., 0);
+    exchange of two cells through a temporary or std::swap; rotation fill pi[i] = (R + i) mod n or
+    std::iota + std::rotate(begin, begin + R, end) (resp. end - X, which is R = n - X); the returned
+    offset must be congruent to n - R."""
+    from ..core import poly, padd
     prog = ctx.prog
     n = 0
     f = prog.fn('random_rotation', 0)
     a = ctx.analysis(f)
     T = a.T
     npar = T.mk('param', f['params'][0]['n'])
-    # the fill is (R + i) mod n for some offset term R; the returned value is (n - R) mod n for the same R
+    pi_p = f['params'][1]
     n += 1
-    R = None
+    R = None        # polynomial of the shift: pi[i] = (i + R) mod n
+    how = None
     for nid, ev in a.all_events('mcall'):
-        if ev[1].endswith('::push_back'):
+        if ev[1].endswith('::push_back') and ev[3]:
             v = ev[3][0]
             vn = T.node(v)
             if vn[0] == 'op' and vn[1] == '%' and vn[3] == npar:
-                s = T.node(vn[2])
-                if s[0] == 'op' and s[1] == '+':
-                    ivs = [x for x in (s[2], s[3]) if T.op(x) == 'iv']
-                    oth = [x for x in (s[2], s[3]) if T.op(x) != 'iv']
+                sn = T.node(vn[2])
+                if sn[0] == 'op' and sn[1] == '+':
+                    ivs = [x for x in (sn[2], sn[3]) if T.op(x) == 'iv']
+                    oth = [x for x in (sn[2], sn[3]) if T.op(x) != 'iv']
                     if len(ivs) == 1 and len(oth) == 1:
-                        R = oth[0]
+                        R = poly(T, oth[0])
+                        how = 'pi[i] = (r + i) mod n'
+    for nid, ev in a.all_events('write'):
+        # pi[i] = (r + i) % n by assignment
+        if ev[1][0] == 'e' and ev[1][1] == ('v', pi_p['id'], pi_p['n']):
+            vn = T.node(a.strip_ix(ev[2], a.ix_loops(ev[2])))
+            if vn[0] == 'op' and vn[1] == '%' and vn[3] == npar:
+                sn = T.node(vn[2])
+                if sn[0] == 'op' and sn[1] == '+':
+                    ivs = [x for x in (sn[2], sn[3]) if T.op(x) == 'iv']
+                    oth = [x for x in (sn[2], sn[3]) if T.op(x) != 'iv']
+                    if len(ivs) == 1 and len(oth) == 1:
+                        R = poly(T, oth[0])
+                        how = 'pi[i] = (r + i) mod n'
+    calls = list(a.all_events('call'))
+    iota = [ev for nid, ev in calls if ev[1].split('::')[-1] == 'iota' and len(ev[2]) == 3 and T.is_int(ev[2][2], 0)]
+    rot = [ev for nid, ev in calls if ev[1].split('::')[-1] == 'rotate' and len(ev[2]) == 3]
+    if R is None and iota and len(rot) == 1:
+        mid = T.node(rot[0][2][1])
+        if mid[0] == 'opc' and mid[1] in ('+', '-') and len(mid) == 4:
+            base, off = T.node(mid[2]), mid[3]
+            if base[0] == 'mc' and base[1].split('::')[-1] == 'begin' and mid[1] == '+':
+                R = poly(T, off)
+                how = 'identity rotated left by r'
+            elif base[0] == 'mc' and base[1].split('::')[-1] == 'end' and mid[1] == '-':
+                R = poly(T, npar)
+                padd(R, poly(T, off), -1)
+                how = 'identity rotated left by n - x'
     okp = R is not None
-    (ctx.ok if okp else ctx.bad)('R02c', 'R02c:random_rotation:fill', 'pi[i] = (r + i) mod n' if okp else 'rotation is not filled with (r + i) mod n', f)
+    (ctx.ok if okp else ctx.bad)('R02c', 'R02c:random_rotation:fill', how if okp else 'rotation is not filled with (r + i) mod n by any recognised idiom', f)
     n += 1
     okr = False
-    for nn, kind, val, st in a.exits():
-        if kind == 'return' and val is not None:
-            vn = T.node(val)
-            if vn[0] == 'op' and vn[1] == '%' and vn[3] == npar:
-                s = T.node(vn[2])
-                if s[0] == 'op' and s[1] == '-' and s[2] == npar and s[3] == R:
+    if R is not None:
+        for nn, kind, val, st in a.exits():
+            if kind == 'return' and val is not None:
+                vn = T.node(val)
+                inner = vn[2] if (vn[0] == 'op' and vn[1] == '%' and vn[3] == npar) else val
+                # returned + R must be a multiple of n
+                d = poly(T, inner)
+                padd(d, R, 1)
+                rest = {m: c for m, c in d.items() if c}
+                if all(m == (npar,) for m in rest) and all(c == int(c) for c in rest.values()) and rest:
                     okr = True
-    (ctx.ok if okr else ctx.bad)('R02c', 'R02c:random_rotation:offset', 'returned offset is (n - r) mod n' if okr else 'returned rotation offset is not (n - r) mod n for the r used to fill', f)
+    (ctx.ok if okr else ctx.bad)('R02c', 'R02c:random_rotation:offset', 'returned offset is congruent to n - r' if okr else
+                                 'returned rotation offset is not (n - r) mod n for the shift r the rotation was filled with', f)
     # Fisher-Yates: cells are written only by the identity fill and by a swap of two cells
     f = prog.fn('random_permutation_fast', 0)
     a = ctx.analysis(f)
@@ -314,8 +353,16 @@ def r02c(ctx):
             ie = index_expr(e['a'][0])
             if ie and isinstance(ie[0], dict) and ie[0].get('k') == 'var' and ie[0]['id'] == pi_p['id']:
                 writes.append(e)
+    swaps = []
+    for e in walk(f['body']):
+        if e.get('k') == 'call' and e.get('f', '').split('::')[-1] in ('swap', 'iter_swap') and len(e.get('a', [])) == 2:
+            i1, i2 = index_expr(e['a'][0]), index_expr(e['a'][1])
+            if i1 and i2 and all(isinstance(x[0], dict) and x[0].get('k') == 'var' and x[0]['id'] == pi_p['id'] for x in (i1, i2)):
+                t1, t2 = eval_at(a, i1[1], e['l']), eval_at(a, i2[1], e['l'])
+                swaps.append(t1 is not None and t2 is not None and t1 != t2)
     okw = False
-    if len(writes) == 2:
+    identity_by_assign = False
+    if len(writes) == 2 and not swaps:
         w1, w2 = writes
         i1 = eval_at(a, index_expr(w1['a'][0])[1], w1['l'])
         i2 = eval_at(a, index_expr(w2['a'][0])[1], w2['l'])
@@ -334,11 +381,23 @@ def r02c(ctx):
                             if ii and eval_at(a, ii[1], e['l']) == i1:
                                 saved_ok = True
         okw = (i1 is not None and i2 is not None and src1 == i2 and saved_ok and i1 != i2)
+    elif swaps and all(swaps):
+        # std::swap(pi[i], pi[rnd]); any direct cell write besides it must be the identity fill pi[i] = i
+        rest_ok = True
+        for w in writes:
+            it = eval_at(a, index_expr(w['a'][0])[1], w['l'])
+            vt = eval_at(a, w['a'][1], w['l'])
+            if it is not None and it == vt and T.op(it) == 'iv':
+                identity_by_assign = True
+            else:
+                rest_ok = False
+        okw = rest_ok
     (ctx.ok if okw else ctx.bad)('R02c', 'R02c:random_permutation_fast:swap', 'cells change only by exchanging pi[i] and pi[rnd]' if okw else
                                  'permutation cells are written other than by a swap of two cells (duplicates possible)', f)
     n += 1
     fills = [ev for nid, ev in a.all_events('mcall') if ev[1].endswith('::push_back')]
-    okf = len(fills) == 1 and T.op(fills[0][3][0]) == 'iv'
+    iota = [ev for nid, ev in a.all_events('call') if ev[1].split('::')[-1] == 'iota' and len(ev[2]) == 3 and T.is_int(ev[2][2], 0)]
+    okf = (len(fills) == 1 and T.op(fills[0][3][0]) == 'iv') or (not fills and len(iota) == 1) or (not fills and identity_by_assign)
     (ctx.ok if okf else ctx.bad)('R02c', 'R02c:random_permutation_fast:identity', 'initialised with the identity' if okf else 'not initialised with the identity permutation', f)
     ctx.floor('R02c', n, 4)
 
